@@ -47,7 +47,11 @@ F['C12']['legs'] = [dict(driver='channel', profile='close', prop='close', tv='Ch
                   # WaitCond's watcher goroutine is gone once the call has returned (also for contexts nobody can cancel)
                   dict(driver='waitcond', profile='excl', prop='all', tv='WaitCondTV', n=(60, 80, 1000, 3000), mc_quick=[], mc_thorough=[])]
 fam({'C13': ('main', 'all')},
-    driver='channel', tv='ChannelTV', mc_quick=[('ChannelMC', 'ChannelMC')], mc_thorough=[('ChannelMC', 'ChannelMC_big')],
+    driver='channel', tv='ChannelTV',
+    # ChannelL2: the critical section of Get (lock, context check, receive) against parent cancellation and Close; its _neg
+    # configuration is the negative control for the deviation LinLateTake of ChannelTV
+    mc_quick=[('ChannelMC', 'ChannelMC'), ('ChannelL2', 'ChannelL2'), ('ChannelL2', 'ChannelL2_neg')],
+    mc_thorough=[('ChannelMC', 'ChannelMC_big'), ('ChannelL2', 'ChannelL2_big'), ('ChannelL2', 'ChannelL2_neg')],
     n=(100, 300, 2000, 6000), gen=dict(spec='ChannelGEN', cfgs_quick=['ChannelGEN_quick'], cfgs_thorough=['ChannelGEN']))
 fam({'C15': ('main', 'all')},
     driver='notifier', tv='NotifierTV', mc_quick=[('NotifierMC', 'NotifierMC_quick')], mc_thorough=[('NotifierMC', 'NotifierMC_big')],
